@@ -95,6 +95,8 @@ func init() {
 			ob4 := c.R.Ob("C05.4", "ctrl/kept", "kept targets, and only they, are queued under the kept marker", 2)
 			c.KeptOnlyForKept(ob4, r, keptMarker(c))
 			obDescend(c, "C05.8")
+			ob9 := c.R.Ob("C05.9", "effects/consumed", "an amount handed to a function that rewrites it in place is not used afterwards by the caller", 1)
+			c.ConsumedArgumentsDead(ob9, relInterp)
 			ob7 := c.R.Ob("C05.7", "ctrl/ordered-stop", "the loop over the clauses of an ordered destination is left early only when nothing is left to distribute", 1)
 			_, _, recv, _ := drawFns(c, ob7)
 			c.OrderedDestinationStopsOnlyWhenEmpty(ob7, recv)
